@@ -92,4 +92,25 @@ func VF_C17_Isolation() {
 	vf.Assert(a1 == 0 && a2 == 0 && a3 == 0 && a4 == 0, "C17 reset removes the collection's datatypes, operations, clients and snapshots")
 	b1, b2, b3, _ := w.countCol(2)
 	vf.Assert(b1 == 1 && b2 == 1 && b3 == 1, "C17 reset leaves the other collection alone")
+	// the reset removed client x: it is no longer served in col
+	res, err := w.pushPull(vfCol, vfCUIDx, w.createPack("afterReset", vfDUIDn, vfCUIDx))
+	refused := err != nil || res == nil || hasErrBit(res)
+	vf.Assert(refused, "C17 a client removed by the reset is no longer served in that collection")
+	a1, a2, _, _ = w.countCol(1)
+	vf.Assert(a1 == 0 && a2 == 0, "C17 a request of a removed client stores nothing")
+	// the same client id registers in colB: from now on it belongs there and only there
+	_, e4 := w.svc.ProcessClient(gocontext.TODO(), &model.ClientMessage{Header: model.NewMessageHeader(model.RequestType_CLIENTS), Collection: vfColB, Cuid: vfCUIDx, ClientAlias: "x"})
+	vf.Assert(e4 == nil, "C17 after the reset the client id can register in another collection")
+	res, err = w.pushPull(vfCol, vfCUIDx, w.createPack("afterReset", vfDUIDn, vfCUIDx))
+	refused = err != nil || res == nil || hasErrBit(res)
+	a1, a2, _, _ = w.countCol(1)
+	vf.Assert(refused && a1 == 0 && a2 == 0, "C17 a client registered in colB cannot create datatypes in col")
+	res, err = w.pushPull(vfColB, vfCUIDx, w.createPack("ownKey", vfDUIDu, vfCUIDx))
+	vf.Assert(err == nil && res != nil && !hasErrBit(res), "C17 and it is served in colB")
+	vf.Reach("after-reset")
+}
+
+func hasErrBit(p *model.PushPullPack) bool {
+	o := model.PushPullPackOption(p.Option)
+	return o.HasErrorBit()
 }
